@@ -227,6 +227,7 @@ var c15before = []string{
 	`SELECT * FROM /a"b/`, `SELECT a FROM m WHERE h =~ /it's/ AND b = 'x'`, `SELECT a / b, x::field / 2, (a) / 2, true / 2 FROM m WHERE c = '/' AND d = "/"`,
 	`SELECT a FROM m WHERE h !~ /a\/'b/`, `SELECT /x"/, mean(/y'/) FROM db.rp./'/ GROUP BY /"/`, `SHOW TAG VALUES WITH KEY =~ /'/`,
 	`SELECT a FROM m WHERE s = 'with password \'' AND "set password for" = 1 -- '` + "\n",
+	`SELECT x::field / 2 FROM m WHERE s = 'a/b'`, `SELECT *::tag / 2, y::float / 3 FROM m WHERE s = '/'`,
 	`SELECT * / 2 FROM m WHERE x = 'a/b'`, `SELECT mean(*) / 3 FROM m WHERE x = '/'`, `SELECT * FROM m WHERE x =~ /\\/'/`,
 	// letters whose lower-case form has another length in UTF-8 (offsets computed on a folded copy go wrong)
 	"SELECT a FROM m WHERE s = '\u212a\u212a\u212a\u212a' /* \u0130\u0130\u023a\u023e */",
